@@ -865,9 +865,18 @@ class exists_elim(Method):
                     item.prevs = item.prevs[:-1] + new_intros + [item.prevs[-1]]
                     break
                 else:
-                    state.set_line(id.incr_id(i), item.rule, args=item.args, prevs=item.prevs, \
-                                   th=Thm(item.th.prop, item.th.hyps, body))
+                    # The following lines may depend on the goal, which now has an
+                    # additional hypothesis. This includes the lines of subproofs.
+                    # Assumptions and variables keep their sequents.
+                    def add_hyp(item):
+                        if item.rule not in ('assume', 'variable'):
+                            item.th = Thm(item.th.prop, item.th.hyps, body)
+                        if item.subproof:
+                            for subitem in item.subproof.items:
+                                add_hyp(subitem)
+                    add_hyp(item)
             i += 1
+        state.check_proof(compute_only=True)
 
 
 @register_method('forall_elim')
